@@ -161,6 +161,38 @@ func scanMetaOutMode(c *core.Ctx, collect func(f *types.Func, idx int, ok bool))
 			if identObj(info, e) == outP {
 				return true
 			}
+			// a row of a table that is ranged over (`for _, op := range []struct{ct *Ciphertext; …}{{ct: a}, {ct: opOut}}`):
+			// op.ct stands for the output in one of the iterations
+			if se, ok := e.(*ast.SelectorExpr); ok {
+				if rv := identObj(info, se.X); rv != nil {
+					hit := false
+					ast.Inspect(fd.Body, func(x ast.Node) bool {
+						rs, ok := x.(*ast.RangeStmt)
+						if !ok || rs.Value == nil || identObj(info, rs.Value) != rv {
+							return true
+						}
+						if cl, ok := unparen(rs.X).(*ast.CompositeLit); ok {
+							for _, row := range cl.Elts {
+								rcl, ok := unparen(row).(*ast.CompositeLit)
+								if !ok {
+									continue
+								}
+								for _, el := range rcl.Elts {
+									if kv, ok := el.(*ast.KeyValueExpr); ok {
+										if k, ok := kv.Key.(*ast.Ident); ok && k.Name == se.Sel.Name && identObj(info, kv.Value) == outP {
+											hit = true
+										}
+									}
+								}
+							}
+						}
+						return true
+					})
+					if hit {
+						return true
+					}
+				}
+			}
 			// a local view of the output's metadata: metaOut := opOut.MetaData
 			if o := identObj(info, e); o != nil {
 				if d := singleDef(info, fd, o); d != nil {
@@ -171,12 +203,26 @@ func scanMetaOutMode(c *core.Ctx, collect func(f *types.Func, idx int, ok bool))
 			}
 			return false
 		}
-		event := func(nd ast.Node) bool {
+		inTable := false
+		var event func(nd ast.Node) bool
+		event = func(nd ast.Node) bool {
 			hit := false
 			ast.Inspect(nd, func(x ast.Node) bool {
 				switch v := x.(type) {
 				case *ast.FuncLit:
 					return false
+				case *ast.CompositeLit:
+					// the table of a `for _, row := range []T{{…}, {…}}`: evaluated once, and every row is visited, so what
+					// the body does to the row that holds the output happens on every path through the statement
+					if rs, ok := pm[ast.Node(v)].(*ast.RangeStmt); ok && rs.X == ast.Expr(v) && len(v.Elts) > 0 && !inTable {
+						inTable = true
+						for _, st := range rs.Body.List {
+							if event(st) {
+								hit = true
+							}
+						}
+						inTable = false
+					}
 				case *ast.AssignStmt:
 					for _, l := range v.Lhs {
 						// through opOut's metadata
@@ -190,6 +236,9 @@ func scanMetaOutMode(c *core.Ctx, collect func(f *types.Func, idx int, ok bool))
 								if metaFields[y.Sel.Name] {
 									base := unparen(y.X)
 									for {
+										if isOut(base) {
+											hit = true
+										}
 										if s2, ok := base.(*ast.SelectorExpr); ok {
 											base = unparen(s2.X)
 											continue
